@@ -858,7 +858,12 @@ static void build_expr(WorkList *list, ASTNode *expr, Environment *env) {
                     emit_formatted(list, "%lldLL", (long long)sym->value.as.int_val);
                     return;
                 } else if (sym->value.type == VAL_FLOAT) {
-                    emit_formatted(list, "%.17g", sym->value.as.float_val);
+                    /* as for a float literal: a whole value must stay a C double ("2.0", not "2") */
+                    if (sym->value.as.float_val == (double)(int64_t)sym->value.as.float_val) {
+                        emit_formatted(list, "%.1f", sym->value.as.float_val);
+                    } else {
+                        emit_formatted(list, "%.17g", sym->value.as.float_val);
+                    }
                     return;
                 } else if (sym->value.type == VAL_BOOL) {
                     emit_literal(list, sym->value.as.bool_val ? "true" : "false");
